@@ -163,17 +163,22 @@ class Rig(object):
         try:
             item = self.ua.BundleItem(address='10.0.0.1', port=4556, file=BytesIO(data), transfer_id=xid)
             ag._add_tx_item(item)
+            handed = []
+
+            def go():
+                ag._process_tx_queue()
+                for sw in ag._send_wait.values():
+                    for ti in list(sw.tx_item_queue) + list(sw.pri_item_queue):
+                        for d in ti.dgram_iter:
+                            handed.append(bytes(d))
             try:
-                guarded(ag._process_tx_queue, secs)
+                guarded(go, secs)
                 esc = None
             except Hang:
                 return None, None, 'hang'
             except Exception as err:   # noqa
                 esc = type(err).__name__
-            handed = []
             for sw in ag._send_wait.values():
-                for ti in list(sw.tx_item_queue) + list(sw.pri_item_queue):
-                    handed += [bytes(d) for d in ti.dgram_iter]
                 sw.stop()
             sigs = [(name, tuple(args)) for (_p, name, _sig, args) in ag._verif_signals
                     if name.startswith('send_bundle')]
@@ -282,16 +287,24 @@ def send_cases(chk):
 
 def run_send(chk, rig, cases):
     reqs, obs = [], []
+    hang_budget = 12      # a regression to the endless loop must not turn the check into a timeout
     for (xid, L, m) in cases:
         data = payload(L, xid % 7)
         small = m is not None and L >= m and m - overhead(xid, L) <= 0      # independent arithmetic
-        kind, segs = rig.send(xid, data, m, 4.0)
-        if kind == 'hang':
+        if small and hang_budget <= 0:
+            chk.count('send:too-small-mtu-not-run-after-%d-hangs' % 12)
+            continue
+        kind, segs = rig.send(xid, data, m, 0.3 if small else 4.0)
+        if kind == 'hang' and not small:
             chk.count('send:guard-retry')
             kind, segs = rig.send(xid, data, m, 30.0)
+        if kind == 'hang':
+            hang_budget -= 1
         ptx = None
-        if small or (m is not None and L >= m and L // max(1, m - overhead(xid, L)) <= 300) or (m is None or L < m) and L <= 5000:
-            ptx = rig.process_tx(xid, data, m, 8.0)
+        if kind == 'hang':
+            pass
+        elif small or (m is not None and L >= m and L // max(1, m - overhead(xid, L)) <= 300) or (m is None or L < m) and L <= 5000:
+            ptx = rig.process_tx(xid, data, m, 0.3 if small else 8.0)
         reqs.append({'op': 'udpcl.send', 'id': xid, 'data': data.hex(), **({} if m is None else {'mtu': m})})
         obs.append((xid, data, m, kind, segs, small, ptx))
     answers = chk.driver(reqs) if reqs else []
